@@ -86,6 +86,7 @@ PROFILES = {
     "C18": {"max_ops": 12, "obs": [10, 2, 2, 0, 2], "copy": 1},
     "C19": {"max_ops": 12, "obs": [10, 1, 2, 6, 1], "copy": 1},
     "C06": {"max_ops": 8, "obs": [1, 0, 0, 0, 8], "copy": 1},
+    "C04": {"max_ops": 6, "obs": [4, 0, 0, 4, 4], "copy": 1},
 }
 
 
@@ -170,6 +171,11 @@ class HistRun(object):
             self.fail("C12", "world", "C12/world/%s/%s" % (type(inner).__name__, _msgkey(inner)),
                       "valid schema not realised by prophyc --python_out + import: %s: %s" %
                       (type(inner).__name__, str(inner)[:300]), diverged=True)
+        if "C04" in self.props:
+            from . import layout_oracle
+            for ck, msg in layout_oracle.check_layout(self.R, self.world.nodes, self.world.module):
+                self.fail("C04", "layout", ck, msg + " (prophy-language input, declaration order)")
+            self.count("layout_checked_types", len(self.R.composites()))
         self.tname = plan["msg_name"]
         self.T = self.R.types[self.tname]
         self.cls = self.world.cls(self.tname)
